@@ -66,7 +66,7 @@ std::string handle(const std::string& op, Args& a)
 			out_matrix(o, qr.second, n);
 		});
 	}
-	if(op == "c15.eigenvalues")
+	if(op == "c15.spectrum")
 	{
 		Matrix M = square(a);
 		a.end();
@@ -82,7 +82,7 @@ std::string handle(const std::string& op, Args& a)
 		Matrix M = square(a);
 		a.end();
 		bool sys = op == "c15.eigensystem";
-		ShortTimeout t(2);
+		ShortTimeout t(1);
 		return run_forked([&](Out& o) {
 			Matrix W(M);
 			if(sys)
